@@ -255,6 +255,23 @@ def write (p : Prob) : WFile :=
     uCard := universeCollectNewValues p
     fillCard := fillCollectNewValues p }
 
+/-! ## Histories with writes in between (round 7, seeded C04f) -/
+
+/-- one item of a history in which the problem is also written on the way: an edit, or
+    `mcnp_problem.py:MCNP_Problem.write_to_file` (`none`) -/
+abbrev Item := Option Edit
+
+/-- `write_to_file` in the middle of a history: the file of that moment is `write p`, and the problem is the same
+    afterwards — numbers, members, pointer fields.  What a write leaves behind are the values of the syntax-tree
+    nodes; every `_update_values` / `_update_node` / `_tree_value` above assigns them from the pointers
+    unconditionally, so no later write reads what an earlier one left (they are not part of the state). -/
+def stepW (acc : Prob × List WFile) : Item → Prob × List WFile
+  | none => (acc.1, acc.2 ++ [write acc.1])
+  | some e => ((stepE acc.1 e).1, acc.2)
+
+/-- the final problem and the files written on the way, in order -/
+def runW (p : Prob) (is : List Item) : Prob × List WFile := is.foldl stepW (p, [])
+
 /-! ## Linking after reading -/
 
 /-- a collection as `MCNP_Problem.parse_input` leaves it: members in file order, object `i` is card `i`.
